@@ -31,10 +31,15 @@ mi_heap_recalloc_aligned_at mi_heap_recalloc_aligned mi_realloc_aligned_at mi_re
 mi_heap_strdup mi_heap_strndup mi_strdup mi_strndup mi_free_size mi_free_size_aligned mi_free_aligned mi_cfree mi_malloc_size mi_malloc_usable_size mi_malloc_good_size mi_usable_size
 mi_heap_alloc_new mi_heap_alloc_new_n mi_new mi_new_n mi_new_nothrow'''.split()
 
+SECURE_FNS = '''mi_rotl mi_rotr mi_ptr_encode mi_ptr_decode mi_ptr_encode_canary mi_block_nextx mi_block_set_nextx mi_block_next mi_block_set_next
+mi_is_in_same_page mi_check_is_double_free mi_page_decode_padding _mi_padding_shrink mi_page_usable_size_of mi_page_block_size mi_page_usable_block_size
+_mi_ptr_page _mi_segment_page_start mi_page_to_slice _mi_segment_page_start_from_slice _mi_align_up _mi_ptr_segment _mi_segment_page_of mi_slice_first mi_slice_to_page'''.split()
+
 GROUPS = {
     # name: dict(kind, ...)
     'Arith': dict(kind='translate', flags=RELEASE, names=ARITH, mem=False),
     'Tables': dict(kind='tables', flags=RELEASE),
+    'Secure': dict(kind='translate', flags=SECURE, names=SECURE_FNS, namespace='GenS', log_errors=True),
     'Entry': dict(kind='translate', flags=RELEASE, names=ENTRY, mem=False, explicit_in=('mi_posix_memalign',), namespace='GenE'),
 }
 
@@ -135,7 +140,7 @@ def generate(repo, outdir, cache, groups=None, force=False):
                     tu = tus[key]
                     if spec['kind'] == 'translate':
                         txt, bad = tu.translate(spec['names'], mem=spec.get('mem', False), explicit_in=spec.get('explicit_in', ()),
-                                                namespace=spec.get('namespace', 'Gen'), imports=spec.get('imports', ('MiVerif.Gen.Prelude',)),
+                                                namespace=spec.get('namespace', 'Gen'), log_errors=spec.get('log_errors', False), imports=spec.get('imports', ('MiVerif.Gen.Prelude',)),
                                                 header=HEADER)
                     elif spec['kind'] == 'custom':
                         txt = spec['fn'](tu, spec)
